@@ -178,11 +178,23 @@ def _need_float(x, what, site):
         raise Violation("%s = %r is not a finite float" % (what, x), site=site, kind="not_finite")
 
 
+def _earth(ell):
+    """The Earth object for the ellipsoid: built directly, or (every other ellipsoid, by its
+    flattening) an object that already served another ellipsoid and was then switched with the
+    documented set() - the two ways of selecting the reference ellipsoid must agree."""
+    if int(ell._f * 1e9) % 2 == 0:
+        return Earth(ell)
+    e = Earth(Ellipsoid(6371000.0, 0.0, 7.292115e-5))
+    e.rho(10.0), e.rp(10.0), e.rm(10.0), e.linear_velocity(10.0), e.rho_sinphi(10.0, 100.0)
+    e.set(ell)
+    return e
+
+
 # ------------------------------------------------------------------ clause: ellipsoid
 
 def body_ellipsoid(case):
     ell, name = _ell(case["ell"])
-    e = Earth(ell)
+    e = _earth(ell)
     lat, h, form = case["lat"], case["h"], case["form"]
     a, f, om = ell._a, ell._f, ell._omega
     b = a * (1.0 - f)
@@ -262,7 +274,7 @@ def body_ellipsoid(case):
 
 def body_curvature(case):
     ell, name = _ell(case["ell"])
-    e = Earth(ell)
+    e = _earth(ell)
     a, f = ell._a, ell._f
     b = a * (1.0 - f)
     lo, hi = b * b / a, a * a / b
@@ -301,7 +313,7 @@ def _dist(e, p1, p2, forms):
 
 def body_distance(case):
     ell, name = _ell(case["ell"])
-    e = Earth(ell)
+    e = _earth(ell)
     a, f = ell._a, ell._f
     p1, p2, forms = case["p1"], case["p2"], case["forms"]
     lon1, lat1 = p1
